@@ -2,6 +2,18 @@
 # Regenerates MANIFEST.json from the table below (kept in one place so the manifest stays valid).
 import json, subprocess
 CLAIMED = {
+ "C01": dict(
+   text="Contracts on the real chunk writer helpers (type-0 and type-3 header generators against RTMP 5.3.1 incl. extended timestamps) and on the chunk reader: one payload step consumes exactly min(remaining, input chunk size) bytes and appends them (prefix preserved), a message is returned iff complete and never truncated, ReadMessage's loop is verified against a quantified invariant over the chunk-stream table (per-stream consistency and separation), and the peer's Set Chunk Size takes effect on the reader.",
+   note="PARTIAL: WriteMessage's chunking loop and the writer/reader step-compatibility lemma are not yet under contract; the whole-session induction is a paper argument over the per-step contracts; the handshake is not covered. Trusted: ghost-stream contracts of io.ReadFull/binary.Read/bufio, govc, go/ssa, solvers.",
+   design="7/C01"),
+ "C02": dict(
+   text="readBasicHeader against the three basic-header forms (all first bytes, exact consumption), readMessageHeader against RTMP 5.3.1.2/5.3.1.3: mandatory rejections (type 0 inside a message, length change, fresh stream not starting with type 0 except the librtmp ping), acceptance otherwise, field replacement/inheritance, timestamp rules for types 0-3 reduced to 31 bits, extended timestamp of type 0; frame conditions (only the addressed chunk stream's state and message change) and preservation of the reader-state invariant across ReadMessage.",
+   note="Known finding (recorded, not repaired): extended timestamp of type-1/2 chunks taken as absolute instead of delta. Completion order over unbounded interleavings follows by induction over the frame condition (not mechanised). Trusted: ghost-stream contracts, govc, go/ssa, solvers.",
+   design="7/C02"),
+ "C03": dict(
+   text="Set Chunk Size, Window Acknowledgement Size, Set Peer Bandwidth and User Control packets: Size(), marshal layout, unmarshal acceptance and values over the full uint32/int32 ranges and all 65536 user-control event types (1/4/8-byte bodies) by bit-vector reasoning; User Control round-trip lemma with trailing data.",
+   note="PARTIAL: the AMF0 command packets (connect/createStream/publish/play/call), message-type and transaction dispatch and the reflection-based Expect* helpers are not under contract in this check. Trusted: govc, go/ssa, solvers.",
+   design="7/C03"),
  "C09": dict(
    text="Byte-exact FLV v1 layout contracts on the real muxer (13-byte header incl. PreviousTagSize0, 11-byte tag header, body, PreviousTagSize = 11+size) and demuxer (fields read at the stream head, exact advance by 13 / 11 / size+4, body never truncated, acceptance iff enough bytes), stated over ghost byte streams so they hold for every segmentation of the transport; plus the header+tag round-trip lemma through a real bytes.Buffer / bytes.Reader for every type, 32-bit timestamp and body below 2^24 bytes.",
    note="Trusted: contracts of io.Copy / io.CopyN / bytes.Buffer / bytes.NewReader over ghost streams (they are what hides segmentation), govc, go/ssa, solvers. Sequences of tags follow by induction over the per-tag contracts (position-relative), not mechanised.",
